@@ -13,9 +13,9 @@
 (* Unserialize accept ("yes"/"no"); link = outcome of the link step         *)
 (* performed on the accepted value ("ok"/"fail"/"-"); use = outcome of      *)
 (* running every operation on every node afterwards ("ok"/"fail"/"-").      *)
-(* A line is accepted iff these stage outcomes are the ones the operators   *)
-(* of spec/Meta.tla compute - and, for "c09", iff the real description is   *)
-(* Describe(ast) field by field.  (Panics are judged against the property   *)
+(* A line is accepted iff acceptance and usability (link and use both ok)   *)
+(* are what the operators of spec/Meta.tla compute - and, for "c09", iff    *)
+(* the real description is Describe(ast) field by field.  (Panics are judged against the property   *)
 (* by the harness directly; cases in which SelfSerialize failed carry no    *)
 (* description and are not logged.)                                         *)
 (***************************************************************************)
@@ -72,22 +72,20 @@ InStep(s) == Step(s.id, InScope(s.input), {KV(x.key, InOut(x.x)) : x \in Range(s
                   InDisp(s.display))
 InTop(j)  == IF j.kind = "schema" THEN TSchema({KV(x.key, InStep(x.x)) : x \in Range(j.steps)}) ELSE InScope(j)
 
-\* the stage outcomes the operators predict for a description
+\* the outcomes the operators predict for a description: is it accepted, and if so, is the accepted
+\* schema usable.  (At which of the later steps - link or first use - the code notices a fault is logged but
+\* left open: the pinned code looks up roots and decodes defaults on first use, a repaired one while linking.)
 Expected(target, dd) ==
     LET c == Classify(target, dd) IN
-    CASE c.stage = "accept"    -> [acc |-> "no",  link |-> "-",    use |-> "-"]
-      [] c.stage = "link"      -> [acc |-> "yes", link |-> "fail", use |-> "-"]
-      [] c.stage = "first_use" -> [acc |-> "yes", link |-> "ok",   use |-> "fail"]
-      [] c.stage = "usable"    -> [acc |-> "yes", link |-> "ok",   use |-> "ok"]
+    [acc |-> IF c.stage = "accept" THEN "no" ELSE "yes", usable |-> c.stage = "usable"]
 
 Verdict(e) ==
     LET dd  == InTree(e.desc)
         exp == Expected(e.target, dd)
     IN [desc |-> (e.ev = "c09" => dd = Describe(InTop(e.ast))),
         acc  |-> e.acc = exp.acc,
-        link |-> e.link = exp.link,
-        use  |-> e.use = exp.use]
-LineOK(e) == LET vd == Verdict(e) IN vd.desc /\ vd.acc /\ vd.link /\ vd.use
+        use  |-> (e.acc = "yes" => ((e.link = "ok" /\ e.use = "ok") <=> exp.usable))]
+LineOK(e) == LET vd == Verdict(e) IN vd.desc /\ vd.acc /\ vd.use
 
 Accepted == l > 1 => LineOK(Trace[l - 1])
 
